@@ -138,6 +138,11 @@ class LogixController(Module):
             i += 1
         elif path[0][:3] == ("logical", "class", 0x6B):
             if self.micro800 or self.firmware < 21:
+                # C09: towards a controller that has no symbol-instance addressing such a path denotes nothing; which
+                # addressing a controller takes is known from its identity before the first tag request
+                self.world.hits.hit("C09", "path.denotes", f"symbol-instance path {path} sent to a controller without "
+                                    f"symbol-instance addressing (firmware {self.firmware}, micro800={self.micro800})",
+                                    kind="instance_unsupported", rw="?", unresolved=True)
                 raise ResolveError(ST_PATH_DEST, why="symbol instance addressing not supported")
             if n < 2 or path[1][:2] != ("logical", "instance"):
                 raise ResolveError(ST_PATH_SEG, why="class 0x6B without instance")
